@@ -245,3 +245,39 @@ def derived_rows(ex, tname):
         cname = "C13_derived_value_follows_its_definition"
     ex.check(cname, ex.truth_value(ok))
     return None
+
+
+def response_construction(ex, kind):
+    """C02/C12: a ProtocolResponse built by the real constructor reads exactly the payload of the frame: its byte
+    source is command.trim_response(raw), seek() goes to command.get_offset(address), read() reads from there"""
+    from goodwe.protocol import (ProtocolResponse, ModbusRtuProtocolCommand, ModbusTcpProtocolCommand,
+                                 Aa55ProtocolCommand, ProtocolCommand)
+    cls, hdr, tail = {"rtu": (ModbusRtuProtocolCommand, 5, 2), "tcp": (ModbusTcpProtocolCommand, 9, 0),
+                      "aa55": (Aa55ProtocolCommand, 7, 2)}[kind]
+    ex.unit = f"ProtocolResponse@{kind}"
+    cmd = ex.new_object(cls.__new__(cls))
+    first = ex.fresh_int("first")
+    cmd.first_address = first
+    n = ex.fresh_int("plen")
+    ex.assume(mk_bool(z3.And(n.t >= 0, n.t <= 255)))
+    frame = ex.fresh_arr("frame")
+    from .sbytes import ASeg
+    raw = SBytes([ASeg(frame, 0, n.t + (hdr + tail))])
+    ex.inputs = {"raw": raw, "first": first}
+    resp = ex.call(ProtocolResponse, [raw, cmd], {})
+    src = resp._bytes.data
+    ex.check("C02_C12_byte_source_is_the_payload_of_the_frame",
+             len(src.segs) == 1 and src.segs[0].arr.eq(frame)
+             and ex.known(z3.And(zt(src.segs[0].off) == hdr, zt(src.segs[0].ln) == n.t)))
+    rd = ex.call(resp.response_data, [], {})
+    ex.check("C02_response_data_is_the_payload", mk_bool(zt(rd.length()) == n.t))
+    addr = ex.fresh_int("address")
+    want = mk_int((addr.t - first.t) * 2) if kind != "aa55" else addr
+    ex.assume(mk_bool(iterm(want) >= 0))
+    ex.call(resp.seek, [addr], {})
+    ex.check("C12_seek_goes_to_the_mapped_position", values_equal(ex, resp._bytes.pos, want))
+    got = ex.call(resp.read, [2], {})
+    ex.assume(mk_bool(iterm(want) + 2 <= n.t))
+    ex.check("C12_read_returns_the_bytes_at_that_position",
+             mk_bool(z3.And(iterm(got.elem_at(ex, 0)) == z3.Select(frame, hdr + iterm(want)),
+                            iterm(got.elem_at(ex, 1)) == z3.Select(frame, hdr + iterm(want) + 1))))
